@@ -1107,6 +1107,10 @@ class Model:
 
             node.update()
 
+        # the assignment of seeds in set_seed() must not depend on the order in
+        # which the nodes were added to the model
+        self._seed_nodes.sort(key=lambda node: node.name)
+
     @staticmethod
     def _build_node_graph(nodes: Iterable[Node]) -> nx.DiGraph:
         """Builds the directed graph of the model nodes."""
